@@ -305,6 +305,21 @@ func (w *World) viol(sig, msg string) {
 
 // appOp commits one application transaction. Transactions that change nothing
 // are not recorded by LMDB and are not counted as commits.
+// culpritHook names the application commit a whole-run failure (loop died, mirror inconsistent) is attributed to:
+// the first commit that landed in one of the two windows after an empty Lightning Stream transaction (the known
+// root causes), else the last commit.
+func (w *World) culpritHook() string {
+	for _, h := range w.commitAt {
+		if h == "load.afterTxn(empty-txn)" || (!w.Cfg.Native && (h == "send.afterTxn" || h == "send.afterTxn+straddle")) {
+			return h
+		}
+	}
+	if len(w.commitAt) > 0 {
+		return w.commitAt[len(w.commitAt)-1]
+	}
+	return "none"
+}
+
 // hookLabel names the point of the loop at which the application acts. A commit right after a load
 // transaction that changed nothing (LMDB does not record it and hands its id to the next committer)
 // is a window of its own.
@@ -544,10 +559,7 @@ func (w *World) checkC11() {
 		w.viol("c11:shadow-dbi-malformed", err.Error())
 		return
 	}
-	at := "none"
-	if len(w.commitAt) > 0 {
-		at = w.commitAt[len(w.commitAt)-1]
-	}
+	at := w.culpritHook()
 	live := map[string]map[string]string{}
 	for d, m := range lc {
 		live[d] = map[string]string{}
@@ -839,10 +851,7 @@ func Run(cfg Cfg, ctx *explore.Ctx) Result {
 		if cfg.Native {
 			mode = "native"
 		}
-		at := "none"
-		if len(w.commitAt) > 0 {
-			at = w.commitAt[len(w.commitAt)-1]
-		}
+		at := w.culpritHook()
 		w.viol(fmt.Sprintf("c03:%s:commit@%s:sync-loop-died", mode, at), fmt.Sprintf("Sync returned by itself with error: %v (application commits at %v)", w.syncErr, w.commitAt))
 	}
 	if cfg.OnlyOnce {
